@@ -16,9 +16,9 @@ PROPS = {
     'C01': dict(
         level='proof',
         verus=['span', 'patterns', 'lexing', 'edit_distance', 'mask'],
-        kani_quick=['lexing.whitespace_5', 'jsdoc.parse_inline_tag_4', 'jsdoc.parse_inline_tag_5', 'jsdoc.mark_inline_tags_5'],
-        kani_thorough=['lexing.whitespace_5', 'lexing.whitespace_8', 'lexing.hex_5', 'lexing.hostname_4', 'lexing.url_4', 'lexing.email_4',
-                       'jsdoc.parse_inline_tag_4', 'jsdoc.parse_inline_tag_5', 'jsdoc.parse_inline_tag_6', 'jsdoc.mark_inline_tags_5'],
+        kani_quick=['lexing.whitespace_5', 'jsdoc.parse_inline_tag_4', 'jsdoc.parse_inline_tag_5'],
+        kani_thorough=['lexing.whitespace_5', 'lexing.whitespace_8', 'lexing.hex_4', 'lexing.hostname_4', 'lexing.url_4', 'lexing.email_4',
+                       'jsdoc.parse_inline_tag_4', 'jsdoc.parse_inline_tag_5', 'jsdoc.parse_inline_tag_6'],
         unverified=[
             'every rule body (match_to_lint / lint of ~290 rules), LintGroup::lint, Document::parse condensing passes',
             'all front-ends that wrap an external parser: Markdown (pulldown-cmark), tree-sitter comment extraction, Typst, HTML, Literate Haskell, git commit parser, javadoc/go/unit comment parsers',
@@ -28,13 +28,13 @@ PROPS = {
         ],
         assumptions=[LEXER_BOUNDED,
                      'VecExt::remove_indices contract assumed in Verus (checked by bounded-rac under C13)',
-                     'jsdoc harnesses are bounded (token sequences of length <= 5, 6 token kinds): bounded, not proved'],
+                     'jsdoc parse_inline_tag harnesses are bounded (token sequences of length <= 6, 6 token kinds): bounded, not proved; mark_inline_tags is unverified (a Kani harness for it crashes kani-compiler 0.68)'],
     ),
     'C02': dict(
         level='proof',
         verus=['lexing', 'number', 'mask'],
         kani_quick=['lexing.whitespace_5'],
-        kani_thorough=['lexing.whitespace_5', 'lexing.whitespace_8', 'lexing.hex_5', 'lexing.hostname_4', 'lexing.url_4', 'lexing.email_4'],
+        kani_thorough=['lexing.whitespace_5', 'lexing.whitespace_8', 'lexing.hex_4', 'lexing.hostname_4', 'lexing.url_4', 'lexing.email_4'],
         unverified=[
             'Document::parse condensing passes (condense_spaces/newlines/contractions/dotted_initialisms/number_suffixes/ellipsis/latin, match_quotes): not under contract in this round',
             'every front-end other than plain English (Markdown byte/char bookkeeping, Mask::parse, CollapseIdentifiers, IsolateEnglish, comment parsers, HTML, Typst, LHS, git commit)',
@@ -84,10 +84,10 @@ PROPS = {
     ),
     'C15': dict(
         level='proof',
-        verus=['edit_distance'],
+        verus=['edit_distance', 'merged_dictionary'],
         kani_quick=[], kani_thorough=[],
         unverified=[
-            'agreement of the FST, mutable and merged dictionary back-ends; MergedDictionary union behaviour; fuzzy-search completeness, ordering and caps (fst / levenshtein_automata / hashbrown / itertools code)',
+            'agreement of the FST and mutable back-ends; MergedDictionary *_str variants (contains_exact_word_str delegates to contains_word: visible by reading, not decided), fuzzy_match merging, words_iter, word_count, get_word_from_id; fuzzy-search completeness, ordering and caps (fst / levenshtein_automata / hashbrown / itertools code)',
             'strings longer than 254 chars: edit_distance_min_alloc is proved only under that precondition; at 255 its u8 rows overflow, above 255 it indexes out of bounds (D5); call sites (MutableDictionary::fuzzy_match, WithinEditDistance::matches) are not under contract',
         ],
         assumptions=['Vec::extend over RangeInclusive<u8> (vstd iterator model + ext_seq axiom)'],
